@@ -62,6 +62,64 @@ void set_searchmoves(Tape& t, Position& pos, const std::vector<ref::Move>& legal
     }
 }
 
+// kings + two to four men out of {pawn, knight, bishop, rarely rook}: every capture is close to a draw by material
+ref::Pos tiny_endgame(Tape& t, Report& rep)
+{
+    for (int attempt = 0; attempt < 6; ++attempt)
+    {
+        ref::Pos p;
+        gen::place_kings(t, p, false);
+        int n = 2 + int(t.choose(3));
+        for (int i = 0; i < n; ++i)
+        {
+            char c = "pnbpnbr"[t.choose(7)];
+            int s = gen::free_square(t, p, c == 'p');
+            if (s < 0) continue;
+            p.b[s] = t.flag() ? char(std::toupper(c)) : c;
+        }
+        p.wtm = !t.flag();
+        gen::repair_not_to_move_check(p);
+        gen::choose_clocks(t, p);
+        if (p.half > 90) p.half = int(t.choose(90));
+        if (!ref::domain_violation(p).empty() || ref::legal_moves(p).empty()) continue;
+        rep.cls("c05:tiny_endgame");
+        return p;
+    }
+    return gen::gen_fen(t, &rep, 0);
+}
+
+// many cheap searches of tiny endgames on one table: legality of bestmove and of every pv
+bool c05_tiny_batch(Tape& t, Report& rep, sl::Session& S, std::string& history)
+{
+    int n = 4 + int(t.choose(8));
+    for (int i = 0; i < n; ++i)
+    {
+        ref::Pos root = tiny_endgame(t, rep);
+        std::vector<ref::Move> legal = ref::legal_moves(root);
+        if (legal.empty()) continue;
+        Position pos = br::from_fen(root);
+        Limits lim;
+        lim.depth = 2 + int(t.choose(g_tier ? 5 : 4));
+        sl::Plan plan;
+        plan.cap = 60000;
+        std::string desc = "position fen " + ref::to_fen(root) + " ; go depth " + std::to_string(lim.depth);
+        history += (history.empty() ? "" : " || ") + desc;
+        rep.decoded = history;
+        sl::Out o = sl::run(S, pos, lim, plan);
+        rep.eval();
+        if (o.bestmoves.size() != 1) return rep.fail("go:bestmove_count", std::to_string(o.bestmoves.size()) + " bestmove lines\n session: " + history);
+        if (std::find_if(legal.begin(), legal.end(), [&](const ref::Move& m) { return m.uci() == o.bestmoves[0]; }) == legal.end())
+            return rep.fail("go:illegal_bestmove", "bestmove " + o.bestmoves[0] + " is not legal in " + ref::to_fen(root) + "\n session: " + history + "\n output:\n" + o.raw);
+        for (auto& il : o.infos)
+        {
+            std::string bad = sl::pv_illegal(root, il.pv);
+            if (!bad.empty()) return rep.fail("go:illegal_pv", bad + "\n line: " + il.raw + "\n " + desc + "\n session: " + history);
+            if (il.pv.size() >= 6) rep.cls("c05:pv_of_6_or_more_moves_checked");
+        }
+    }
+    return true;
+}
+
 // ------------------------------------------------------------------------------------------------
 // C05
 // ------------------------------------------------------------------------------------------------
@@ -70,6 +128,11 @@ bool prop_C05(Tape& t, Report& rep)
     br::init_engine();
     tune_malloc();
     sl::Session S;
+    if (t.chance(1, 3))
+    {
+        std::string h;
+        return c05_tiny_batch(t, rep, S, h);
+    }
     int nsearch = 1 + int(t.choose(3));
     std::string history;
     const uint64_t CAP = uint64_t(opt_int("cap", g_tier ? 400000 : 150000));
@@ -374,14 +437,115 @@ ref::Pos forcing_back_rank(Tape& t, Report& rep)
     return gen::theme_checks(t, &rep);
 }
 
+// one depth-limited search checked against both halves of the property; returns false on a violation
+bool c08_one(sl::Session& S, const ref::Pos& root, const std::string& kind, int depth, std::string& history, Report& rep)
+{
+    std::vector<ref::Move> legal = ref::legal_moves(root);
+    if (legal.empty()) return true;
+    Position pos = br::from_fen(root);
+    Limits lim;
+    lim.depth = depth;
+    sl::Plan plan;
+    plan.cap = uint64_t(opt_int("cap", g_tier ? 600000 : 120000));
+    plan.virtual_clock = true;
+    plan.nodes_per_ms = 1;  // irrelevant: depth-limited searches have an infinite time budget
+    std::string desc = "position fen " + ref::to_fen(root) + " ; go depth " + std::to_string(lim.depth) + " [" + kind + "]";
+    history += (history.empty() ? "" : " || ") + desc;
+    rep.decoded = history;
+    sl::Out o = sl::run(S, pos, lim, plan);
+    rep.eval();
+    if (o.capped)
+    {
+        rep.cls("c08:inconclusive_visit_cap");
+        return true;
+    }
+    if (o.bestmoves.size() != 1) return true;  // C05's concern
+    // (1) a mate in one must be played
+    std::vector<ref::Move> m1 = ref::mates_in_one(root);
+    bool nontrivial = false;
+    if (!m1.empty())
+    {
+        nontrivial = true;
+        rep.cls("c08:mate_in_one_available");
+        if (root.half >= 90) rep.cls("c08:mate_in_one_high_clock");
+        bool played = std::find_if(m1.begin(), m1.end(), [&](const ref::Move& m) { return m.uci() == o.bestmoves[0]; }) != m1.end();
+        rep.sample("c08:mate_in_one", desc + " -> " + o.bestmoves[0], 2);
+        if (!played)
+            return rep.fail("mate:mate_in_one_not_played",
+                            "a mate in one exists (" + m1[0].uci() + ") but bestmove is " + o.bestmoves[0] + "\n " + desc + "\n session: " + history +
+                                "\n output:\n" + o.raw);
+    }
+    // (2) the final info line's mate announcement must be true
+    if (!o.infos.empty() && o.infos.back().mate)
+    {
+        nontrivial = true;
+        long long y = o.infos.back().score;
+        rep.cls("c08:mate_announcements");
+        rep.cls(y > 0 ? "c08:announce_win" : (y < 0 ? "c08:announce_loss" : "c08:announce_zero"));
+        rep.sample("c08:announcement", desc + " -> " + o.infos.back().raw, 3);
+        ref::MateSolver ms;
+        ms.budget = uint64_t(opt_int("solver_nodes", g_tier ? 2000000 : 150000));
+        int verdict;  // 1 true, 0 proven false, -1 undecided
+        if (y == 0)
+            verdict = 0;  // the root has legal moves: nobody is mated in zero moves
+        else if (y > 0)
+        {
+            verdict = 0;
+            int maxPlies = int(std::min<long long>(2 * y - 1, opt_int("solver_plies", 7)));
+            bool complete = maxPlies == 2 * y - 1;
+            for (int n = 1; n <= maxPlies; n += 2)
+            {
+                int r = ms.attacker_mates(root, n);
+                if (r == 1) { verdict = 1; break; }
+                if (r < 0) { verdict = -1; break; }
+            }
+            if (verdict == 0 && !complete) verdict = -1;
+        }
+        else
+        {
+            verdict = 0;
+            int maxPlies = int(std::min<long long>(2 * (-y), opt_int("solver_plies", 7) + 1));
+            bool complete = maxPlies == 2 * (-y);
+            for (int n = 2; n <= maxPlies; n += 2)
+            {
+                int r = ms.defender_mated(root, n);
+                if (r == 1) { verdict = 1; break; }
+                if (r < 0) { verdict = -1; break; }
+            }
+            if (verdict == 0 && !complete) verdict = -1;
+        }
+        if (verdict < 0) rep.cls("c08:announcement_undecided_beyond_solver_horizon");
+        if (verdict == 1) rep.cls("c08:announcement_confirmed");
+        if (verdict == 0)
+            return rep.fail(std::string("mate:false_announcement") + (y == 0 ? ":mate0" : ""),
+                            "final info line announces 'score mate " + std::to_string(y) + "' but the exhaustive solver finds no such forced mate\n " +
+                                desc + "\n line: " + o.infos.back().raw + "\n session: " + history + "\n output:\n" + o.raw);
+    }
+    if (nontrivial) rep.nontriv(fnv1a(desc));
+    rep.cls("c08:kind_" + kind);
+    return true;
+}
+
 bool prop_C08(Tape& t, Report& rep)
 {
     br::init_engine();
     tune_malloc();
     sl::Session S;
-    int nsearch = 1 + int(t.choose(3));
     std::string history;
     const int MAXD = g_tier ? 5 : 4;
+    if (t.chance(1, 4))
+    {
+        // a batch of cheap shallow searches of forcing back-rank positions: quiescence meets in-check nodes whose only
+        // evasions are interpositions, the place where real and false mates are closest
+        int n = 6 + int(t.choose(10));
+        for (int i = 0; i < n; ++i)
+        {
+            ref::Pos root = forcing_back_rank(t, rep);
+            if (!c08_one(S, root, "forcing_back_rank", 1 + int(t.choose(3)), history, rep)) return false;
+        }
+        return true;
+    }
+    int nsearch = 1 + int(t.choose(3));
     ref::Pos prevRoot = ref::startpos();
     for (int si = 0; si < nsearch; ++si)
     {
@@ -426,90 +590,9 @@ bool prop_C08(Tape& t, Report& rep)
             root = prevRoot;
             kind = "same_root_again";
         }
-        std::vector<ref::Move> legal = ref::legal_moves(root);
-        if (legal.empty()) continue;
+        if (ref::legal_moves(root).empty()) continue;
         prevRoot = root;
-        Position pos = br::from_fen(root);
-        Limits lim;
-        lim.depth = 1 + int(t.choose(uint32_t(MAXD)));
-        sl::Plan plan;
-        plan.cap = uint64_t(opt_int("cap", g_tier ? 600000 : 120000));
-        plan.virtual_clock = true;
-        plan.nodes_per_ms = 1;  // irrelevant: depth-limited searches have an infinite time budget
-        std::string desc = "position fen " + ref::to_fen(root) + " ; go depth " + std::to_string(lim.depth) + " [" + kind + "]";
-        history += (history.empty() ? "" : " || ") + desc;
-        rep.decoded = history;
-        sl::Out o = sl::run(S, pos, lim, plan);
-        rep.eval();
-        if (o.capped)
-        {
-            rep.cls("c08:inconclusive_visit_cap");
-            continue;
-        }
-        if (o.bestmoves.size() != 1) continue;  // C05's concern
-        // (1) a mate in one must be played
-        std::vector<ref::Move> m1 = ref::mates_in_one(root);
-        bool nontrivial = false;
-        if (!m1.empty())
-        {
-            nontrivial = true;
-            rep.cls("c08:mate_in_one_available");
-            if (root.half >= 90) rep.cls("c08:mate_in_one_high_clock");
-            bool played = std::find_if(m1.begin(), m1.end(), [&](const ref::Move& m) { return m.uci() == o.bestmoves[0]; }) != m1.end();
-            rep.sample("c08:mate_in_one", desc + " -> " + o.bestmoves[0], 2);
-            if (!played)
-                return rep.fail("mate:mate_in_one_not_played",
-                                "a mate in one exists (" + m1[0].uci() + ") but bestmove is " + o.bestmoves[0] + "\n " + desc + "\n session: " + history +
-                                    "\n output:\n" + o.raw);
-        }
-        // (2) the final info line's mate announcement must be true
-        if (!o.infos.empty() && o.infos.back().mate)
-        {
-            nontrivial = true;
-            long long y = o.infos.back().score;
-            rep.cls("c08:mate_announcements");
-            rep.cls(y > 0 ? "c08:announce_win" : (y < 0 ? "c08:announce_loss" : "c08:announce_zero"));
-            rep.sample("c08:announcement", desc + " -> " + o.infos.back().raw, 3);
-            ref::MateSolver ms;
-            ms.budget = uint64_t(opt_int("solver_nodes", g_tier ? 2000000 : 150000));
-            int verdict;  // 1 true, 0 proven false, -1 undecided
-            if (y == 0)
-                verdict = 0;  // the root has legal moves: nobody is mated in zero moves
-            else if (y > 0)
-            {
-                verdict = 0;
-                int maxPlies = int(std::min<long long>(2 * y - 1, opt_int("solver_plies", 7)));
-                bool complete = maxPlies == 2 * y - 1;
-                for (int n = 1; n <= maxPlies; n += 2)
-                {
-                    int r = ms.attacker_mates(root, n);
-                    if (r == 1) { verdict = 1; break; }
-                    if (r < 0) { verdict = -1; break; }
-                }
-                if (verdict == 0 && !complete) verdict = -1;
-            }
-            else
-            {
-                verdict = 0;
-                int maxPlies = int(std::min<long long>(2 * (-y), opt_int("solver_plies", 7) + 1));
-                bool complete = maxPlies == 2 * (-y);
-                for (int n = 2; n <= maxPlies; n += 2)
-                {
-                    int r = ms.defender_mated(root, n);
-                    if (r == 1) { verdict = 1; break; }
-                    if (r < 0) { verdict = -1; break; }
-                }
-                if (verdict == 0 && !complete) verdict = -1;
-            }
-            if (verdict < 0) rep.cls("c08:announcement_undecided_beyond_solver_horizon");
-            if (verdict == 1) rep.cls("c08:announcement_confirmed");
-            if (verdict == 0)
-                return rep.fail(std::string("mate:false_announcement") + (y == 0 ? ":mate0" : ""),
-                                "final info line announces 'score mate " + std::to_string(y) + "' but the exhaustive solver finds no such forced mate\n " +
-                                    desc + "\n line: " + o.infos.back().raw + "\n session: " + history + "\n output:\n" + o.raw);
-        }
-        if (nontrivial) rep.nontriv(fnv1a(desc));
-        rep.cls("c08:kind_" + kind);
+        if (!c08_one(S, root, kind, 1 + int(t.choose(uint32_t(MAXD))), history, rep)) return false;
     }
     return true;
 }
